@@ -184,7 +184,7 @@ def _c18():
         bounds=dict(message_len="concrete per harness: every truncation point around each field boundary (UDP header 0..12 / 21..23 octets; SOCKS5 request 0..12 / 21,22; SOCKS4 0..12)",
                     domain_len="0,1,2 (SOCKS5), 0,2 (SOCKS4a)", userid_len="0,1,2", payload="0..3 octets", ip_literals="address octets fixed (127.0.0.1, ::1, 10.0.0.200, 192.168.1.9) where the address is rendered as text; symbolic where it is copied (replies, UDP reply)",
                     everything_else="symbolic (commands, ports, reply codes, reserved octets, methods, payload)"),
-        outside=["NOT COVERED: penguin_socks::v5::read_request (SOCKS5 request reader): its instances (c18_v5req_*, written) do not finish symbolic execution within 3000 s / 20 GB each, nor do the three longest SOCKS4/4a shapes (2-octet user id without terminator; 4a with a user id and a 2-octet domain; 4a with an unterminated 2-octet domain); the SOCKS5 method negotiation, both reply writers, the UDP relay header parser/builder and the SOCKS4/4a request reader are covered",
+        outside=["the Kani instances of penguin_socks::v5::read_request (c18_v5req_*, written) do not finish symbolic execution within 3000 s / 20 GB each: that reader is decided by the source-to-SMT part (gate/socks5.py, reported under coverage.v5_request_reader); NOT COVERED: the three longest SOCKS4/4a shapes (2-octet user id without terminator; 4a with a user id and a 2-octet domain; 4a with an unterminated 2-octet domain)",
                  "domain names / user ids longer than 2 octets", "IP-literal formatting for arbitrary addresses (std fmt code)", "readers that return Pending (the in-memory stream is always ready; the *Ext helpers are the tokio shim)"],
         assumptions=["tokio shim AsyncReadExt/AsyncBufReadExt/AsyncWriteExt helpers follow tokio's documented behaviour (read_exact/read_uN fail with UnexpectedEof, read_until returns what it has at EOF)"],
         trusted=[SHIM_TRUST["bytes"], SHIM_TRUST["tokio"], "reference grammar of RFC 1928 / SOCKS4a in harness/ext/src/c18.rs"],
@@ -555,8 +555,9 @@ MANIFEST_TEXT = {
     ),
     "C18": dict(
         design_ref="DESIGN.md §4-C18",
-        level_text="Bounded model checking of the real penguin-socks readers and writers against a reference grammar written from RFC 1928 / SOCKS4a: for every message length around each field boundary (all truncation points) and ALL octet values, the readers must return exactly (command, address, port), consume exactly the request, and fail on truncated/unterminated/unknown input; replies and the UDP relay datagram must be byte-exact as a conforming client parses them. The solver covers all octet values, which is how the ATYP-after-address reply and the unterminated SOCKS4 field were found. NOT covered: the SOCKS5 request reader (v5::read_request) and the three longest SOCKS4/4a shapes - their instances are written but do not finish within 3000 s / 20 GB.",
-        level_note="Trusted: Kani/CBMC, the tokio io shim (read_exact/read_uN/read_until/write_all written from tokio's docs), the bytes model, the reference grammar. Bounds: domain/user-id <= 2 octets, payload <= 3 octets; IP addresses that are rendered as text are fixed constants (formatting is std code); longer fields are outside the claim.",
+        level_text="Two parts. (1) Bounded model checking (Kani) of the real penguin-socks readers and writers against a reference grammar written from RFC 1928 / SOCKS4a: for every message length around each field boundary (all truncation points) and ALL octet values, the readers must return exactly (command, address, port), consume exactly the request, and fail on truncated/unterminated/unknown input; replies and the UDP relay datagram must be byte-exact as a conforming client parses them. The solver covers all octet values, which is how the ATYP-after-address reply and the unterminated SOCKS4 field were found. Covered this way: SOCKS5 method negotiation, both reply writers, the UDP relay header parser/builder, the SOCKS4/4a request reader. (2) The SOCKS5 request reader (v5::read_request / read_address), whose Kani instances do not finish (365 k steps / 20 GB each), is decided by source-to-SMT translation (gate/socks5.py): its statement list (fixed-width reads, version guard, buffers, read_exact / read_buf, the match on the address type, the reply for an unknown type, the returned triple) is extracted from the current v5.rs and magics.rs and executed symbolically over a message of symbolic length 0..300 whose octets are an uninterpreted function, with tokio's documented semantics of the read helpers (read_buf = one read of a solver-chosen size, i.e. every segmentation of the input); z3 and cvc5 must agree that the outcome (accepted or rejected, command, which octets form the address and how they are rendered, port, octets consumed, reply written) equals RFC 1928's for EVERY message - every domain length 0..255, every truncation point, every address-type octet. A counterexample is written out and replayed against the real v5::read_request over an in-memory stream that delivers one octet per read, next to an independent reference parser. NOT covered: the three longest SOCKS4/4a shapes (their Kani instances do not finish within 3000 s / 20 GB).",
+        level_note="Trusted: Kani/CBMC, the tokio io shim (read_exact/read_uN/read_until/write_all written from tokio's docs), the bytes model, the reference grammar; for part 2 the statement grammar of gate/socks5.py (anything outside it is INCONCLUSIVE), tokio's documented read_uN/read_exact/read_buf semantics, std's address rendering as an uninterpreted function, z3/cvc5. Bounds: part 1 domain/user-id <= 2 octets, payload <= 3 octets, IP addresses that are rendered as text fixed; part 2 messages of 0..300 octets (complete for SOCKS5 requests, whose maximum length is 262).",
+        technique="bounded symbolic execution of the real code (Kani 0.68 / CBMC 6.11 + CaDiCaL, unwinding assertions on) + source-level extraction of the SOCKS5 request reader into SMT-LIB decided by z3 and cvc5 (must agree), counterexamples replayed against the real reader",
     ),
     "C09": dict(
         design_ref="DESIGN.md §4-C09",
